@@ -137,7 +137,7 @@ def main(tier, replay):
         "Operations (one line each, answered by the implementation from the files it wrote/read and by the Lean model): whdr = geometry keys of a header (every header of a "
         "container), rhdr = index range/origin of an image or member read back, fsf = stir::find_scale_factor, conv = header scale factor + numbers stored in the data file "
         "(every data set of every container, decoded with the byte order the header announces), offs = data offsets announced for the data sets of an Interfile container, "
-        "trunc / ctrunc / mtrunc = read_from_file on a truncated single image / Interfile container (all data sets, NM flag) / Multi image (length of every member file), "
+        "trunc / ctrunc / mtrunc = read_from_file on a truncated single image / Interfile container (all data sets, dynamic-or-parametric and NM flags) / Multi image (length of every member file), "
         "exam = exam information of an Interfile container, exams = of a single image or Multi member (read_interfile_image keeps the first time frame), examf = of member f "
         "of a dynamic Interfile image, examm = of a Multi dynamic image assembled from its members. Comparison: integers, ranges, offsets, error tokens exact; "
         "header decimals within 5.01e-6 relative (6 significant digits) + 4*2^-24*sum|terms| for the float operations; scale factors within 2*2^-24 relative; "
@@ -148,9 +148,10 @@ def main(tier, replay):
         "the type's range, stored number = rounded quotient; negative -> 0 for unsigned (stored and read back); exam information field by field (modality, patient position, "
         "radionuclide, energy window, calibration factor, time frames, start time) for the container AND each member; truncated files rejected, complete files accepted. "
         "Known findings are absorbed only for exactly their class: stir::round/int32 only for the voxels whose quotient |x/s| (+ its 5.01e-6 uncertainty) reaches 2^31 - "
-        "every other voxel of uint/long/ulong output is checked strictly; the NM data-offset finding only when the data set read back equals data set 1's stored numbers times "
-        "its own scale factor, resp. (truncation) when a file holding one data set is accepted - stored numbers, offsets, geometry and exam information of NM containers are "
-        "checked in any case; DOUBLE autoscale only when the header scale is 0 and zeros come back; subnormal float scale factor (64-bit output of ~1e-25 values) only for the "
+        "every other voxel of uint/long/ulong output is checked strictly; the NM data-offset finding only for PARAMETRIC Interfile images and only when the parameter read back equals "
+        "parameter 1's stored numbers times its own scale factor, resp. (truncation) when a file holding one data set is accepted - stored numbers, offsets, geometry and "
+        "exam information of NM containers are checked in any case, and dynamic NM images are checked strictly (repaired in /repo by 0e66b8adc: the model's dynamic reader lets "
+        "a frame without a parsed offset follow the previous one); DOUBLE autoscale only when the header scale is 0 and zeros come back; subnormal float scale factor (64-bit output of ~1e-25 values) only for the "
         "range clause. distinct = distinct operation lines.",
         extra=dict(input_histogram=cover, output_formats_registered_in_this_build=registry, registered_formats_not_exercised=not_exercised))
     chk.assumptions += ["decimal formatting of header numbers (operator<< with 6 significant digits, strtod) is an abstract rounding with relative error <= 5e-6",
